@@ -33,6 +33,8 @@ type HarnessResult struct {
 	Obligations  int
 	Discharged   int
 	Trivial      int
+	SecretSinks  int // text-sink operands examined while a secret was registered (secret.go)
+	SecretFlows  int // of those, operands that mention a secret: each one a two-run solver obligation
 	Decisions    int
 	Violations   []Violation
 	Reached      map[string]int
@@ -175,6 +177,8 @@ func Explore(p *Program, entry *ssa.Function, cfg Config, opts ExploreOpts) *Har
 				res.Obligations += m.Obligations
 				res.Discharged += m.Discharged
 				res.Trivial += m.Trivial
+				res.SecretSinks += m.SecretSinks
+				res.SecretFlows += m.SecretFlows
 				res.Decisions += m.Decisions
 				for _, v := range m.Violations {
 					key := v.Kind + "|" + v.Label + "|" + v.Pos
@@ -261,6 +265,9 @@ func (r *HarnessResult) Summary() string {
 	var sb strings.Builder
 	fmt.Fprintf(&sb, "%s: paths=%d ends=%v obligations=%d discharged=%d (trivial %d) violations=%d queries=%d solver=%.1fs wall=%.1fs",
 		r.Entry, r.Paths, r.Ends, r.Obligations, r.Discharged, r.Trivial, len(r.Violations), r.Queries, r.SolverSec, r.WallSec)
+	if r.SecretSinks > 0 {
+		fmt.Fprintf(&sb, " text-sink-operands=%d (mentioning a secret: %d)", r.SecretSinks, r.SecretFlows)
+	}
 	return sb.String()
 }
 
